@@ -2,6 +2,9 @@ package main
 
 import (
 	"fmt"
+	"os"
+	"strconv"
+	"strings"
 )
 
 var suites = map[string]func(o *Out, g *Gen, thorough bool) map[string]any{}
@@ -186,7 +189,68 @@ func init() {
 	}
 }
 
+// doReplay re-executes one recorded case line against the real library and prints the implementation's
+// result line (bin/check runs the model driver on the same line and compares).
 func doReplay(prop, path string) int {
-	fmt.Println("replay not implemented yet")
-	return 2
+	b, err := os.ReadFile(path)
+	if err != nil {
+		fmt.Println("replay:", err)
+		return 2
+	}
+	line := strings.TrimSpace(strings.SplitN(string(b), "\n", 2)[0])
+	toks := strings.Fields(line)
+	if len(toks) == 0 {
+		fmt.Println("not-replayable: empty case")
+		return 3
+	}
+	switch toks[0] {
+	case "enc", "penc":
+		pre, err1 := parseHex(toks[1])
+		v, _, err2 := parseVal(toks[2:])
+		if err1 != nil || err2 != nil {
+			fmt.Println("not-replayable: malformed case")
+			return 3
+		}
+		r := goEnc(v, pre, BufMode{})
+		if toks[0] == "penc" {
+			if r.Class == "ok" {
+				fmt.Println("ok | " + hexOf(r.Appended))
+			} else {
+				fmt.Println("fail")
+			}
+		} else {
+			fmt.Println(r.Line() + func() string {
+				if r.PanicMsg != "" {
+					return "   # " + r.PanicMsg
+				}
+				return ""
+			}())
+		}
+	case "dec", "pdec", "cost":
+		ty, err1 := strconv.Atoi(toks[1])
+		data, err2 := parseHex(toks[2])
+		if err1 != nil || err2 != nil || ty < 0 || ty >= len(typeCtors) {
+			fmt.Println("not-replayable: malformed case")
+			return 3
+		}
+		if toks[0] == "cost" {
+			d := goDecInto(typeCtors[ty](), data, BufMode{}, true)
+			fmt.Printf("ok | %d\n", d.Alloc)
+			return 0
+		}
+		// run the buffer / receiver variants the suites use; print the first result that is not an error, else the error
+		var first *DecResult
+		for _, m := range []BufMode{{}, {Consumed: 3, Spare: 2048, Stale: true}, {Spare: 1 << 16, Stale: true}} {
+			d := goDec(ty, data, m)
+			if first == nil || (first.Class == "err" && d.Class != "err") {
+				dd := d
+				first = &dd
+			}
+		}
+		fmt.Println(first.Line())
+	default:
+		fmt.Println("not-replayable: re-run the check (" + toks[0] + " cases are replayed by the whole suite)")
+		return 3
+	}
+	return 0
 }
